@@ -49,7 +49,7 @@ type progGen struct {
 
 func newProgGen(r *kernel.RNG) *progGen {
 	g := &progGen{r: r, maxD: r.Range(2, 5)}
-	g.w = make([]int, 37)
+	g.w = make([]int, 39)
 	for i := range g.w {
 		g.w[i] = r.Range(0, 4)
 	}
@@ -113,7 +113,7 @@ func (g *progGen) e(d int) string {
 	if d >= g.maxD {
 		return g.atom()
 	}
-	w := append([]int{}, g.w[:33]...)
+	w := append([]int{}, g.w[:35]...)
 	if len(g.fns) == 0 {
 		w[8], w[10], w[11], w[13] = 0, 0, 0, 0
 	}
@@ -233,6 +233,11 @@ func (g *progGen) e(d int) string {
 		return fmt.Sprintf("(apply + [%s %s])", g.e(d+1), g.e(d+1))
 	case 30:
 		return fmt.Sprintf("(len (append [1] %s))", g.e(d+1))
+	case 33:
+		// a hash key given as a list is evaluated by the builtin itself (re-entering the VM); with a default value supplied
+		return fmt.Sprintf("(hget (hash a: 1 2: 7) (quote %s) %s)", g.e(d+1), g.e(d+1))
+	case 34:
+		return fmt.Sprintf("(let [hk (hash 3: 5)] (hset hk %s 1) (hget hk (quote %s) 0))", g.lit(), g.e(d+1))
 	case 32:
 		// the host calls a script function back through the public Apply API
 		n := g.r.Pick(localNames)
@@ -369,7 +374,28 @@ func (g *progGen) loopSum(d int) string {
 	return fmt.Sprintf("(let [s 0] (for [(def %s 0) (< %s %d) (def %s (+ %s 1))] %s) s)", iv, iv, k, iv, iv, inner)
 }
 
+// nestedLoops2: a scope (let/letseq/newScope) between the labelled outer loop and the inner loop
+func (g *progGen) nestedLoops2(d int) string {
+	ctl := g.r.Pick([]string{
+		"(cond (== j 1) (break outer:) 0)",
+		"(cond (== j 1) (continue outer:) 0)",
+		"(cond (== j 0) (continue inner:) (== i 1) (break outer:) 0)",
+		"(let [q j] (cond (== q 1) (continue outer:) 0))",
+	})
+	wrap := g.r.Pick([]string{"(let [q i] %s)", "(letseq [q i r q] %s)", "(newScope %s)", "(let [q i] (let [r q] %s))", "(begin (let [q 1] %s))"})
+	inner := g.withLocal("s", func() string {
+		return g.withLocal("i", func() string {
+			return g.withLocal("j", func() string { return fmt.Sprintf("(set s (+ s %s))", g.e(d+2)) })
+		})
+	})
+	innerLoop := fmt.Sprintf("(for inner: [(def j 0) (< j 2) (def j (+ j 1))] %s %s)", ctl, inner)
+	return fmt.Sprintf("(let [s 0] (for outer: [(def i 0) (< i 2) (def i (+ i 1))] %s) s)", fmt.Sprintf(wrap, innerLoop))
+}
+
 func (g *progGen) nestedLoops(d int) string {
+	if g.r.Chance(0.4) {
+		return g.nestedLoops2(d)
+	}
 	ctl := g.r.Pick([]string{
 		"(cond (== j 1) (break outer:) 0)",
 		"(cond (== j 1) (continue outer:) 0)",
@@ -398,6 +424,11 @@ func (g *progGen) failingForm() string {
 	if len(g.fns) > 0 && g.r.Chance(0.2) {
 		f := g.fns[g.r.Intn(len(g.fns))]
 		core = fmt.Sprintf("(%s%s)", f.name, strings.Repeat(" 1", f.arity+1)) // wrong arity
+	}
+	if len(g.macros) > 0 && g.r.Chance(0.25) {
+		// a redefinition of an existing macro that fails to compile: the earlier definition must survive
+		m := g.macros[g.r.Intn(len(g.macros))]
+		return fmt.Sprintf("(defmac %s [x] %s)", m, g.r.Pick([]string{"(let [a] 1)", "(begin 1 (for []))", "(cond 1 2)", "(fn)"}))
 	}
 	// nest the failing core at some depth so that unwinding crosses several re-entry points
 	s := core
@@ -656,6 +687,12 @@ var declForms = []string{
 	"(for [(def i 0) (< i 3) (def i (+ i 1))] (let [z i] (and (== z 1) (continue) 1)))",
 	"(for [(def i 0) (< i 3) (def i (+ i 1))] (let [z i] (or (< z 1) (break) 1)))",
 	"(defn lt%d [n] (let [m (lt2%d n)] m)) (defn lt2%d [n] (+ n 1)) (lt%d 3)",
+	// a function whose last form is a loop whose body ends in a self-call that really runs (tree walk)
+	"(def vis%d 0) (defn walk%d [n] (for [(def i 0) (< i 2) (def i (+ i 1))] (set vis%d (+ vis%d 1)) (cond (> n 0) (walk%d (- n 1)) 0))) (walk%d 3) vis%d",
+	"(defn wk%d [n] (let [k n] (for [(def i 0) (< i 2) (def i (+ i 1))] (cond (> k 0) (wk%d (- k 1)) 0)))) (wk%d 2)",
+	"(for outer: [(def i 0) (< i 3) (def i (+ i 1))] (let [q i] (for inner: [(def j 0) (< j 3) (def j (+ j 1))] (cond (== j 1) (continue outer:) 0))))",
+	"(for outer: [(def i 0) (< i 3) (def i (+ i 1))] (newScope (for inner: [(def j 0) (< j 3) (def j (+ j 1))] (cond (== j 1) (break outer:) 0))))",
+	"(def rh%d (hash a: 1 b: 2)) (for outer: [(def i 0) (< i 2) (def i (+ i 1))] (range k v rh%d (cond (== v 2) (continue outer:) 0)))",
 	"(def zc%d 1) (++ zc%d) (+= zc%d 2) zc%d",
 }
 
